@@ -23,19 +23,22 @@ static const char *const fault_names[] = { "stream_truncate", "bit_flip", "hosti
 					   "magic_corrupt", "tail_garbage", "random_bytes",
 					   "alloc_fail", "field_extremes", NULL };
 enum { P_ACCEPTED, P_INCOMPLETE, P_REJECTED, P_ACCEPTED_MUTATED, P_PREFIXES, P_FACT, P_EXTENSIBLE,
-       P_PADDED_FMT, P_ZERO_BLOCK_ALIGN, P_INCREMENTAL_STEPS, P_CONSISTENT_CHECKED, P_LEN_ZERO };
+       P_PADDED_FMT, P_ZERO_BLOCK_ALIGN, P_INCREMENTAL_STEPS, P_CONSISTENT_CHECKED, P_LEN_ZERO,
+       P_BIG_FMT, P_LEN_OVER_65593, P_FOREIGN_CHUNK };
 static const char *const probe_names[] = {
 	"input_accepted", "input_reported_incomplete", "input_rejected", "mutated_input_accepted",
 	"prefixes_tried", "fact_chunk_present", "extensible_header", "padded_fmt_chunk",
 	"structure_with_zero_block_align", "incremental_reader_steps", "structural_length_checked",
-	"zero_length_input", NULL };
+	"zero_length_input", "fmt_extension_of_255_to_65535_bytes", "declared_length_over_65593",
+	"foreign_chunk_id_where_data_is_expected", NULL };
 
 static void put16(uint8_t *p, uint32_t v) { p[0] = v; p[1] = v >> 8; }
 static void put32(uint8_t *p, uint32_t v) { p[0] = v; p[1] = v >> 8; p[2] = v >> 16; p[3] = v >> 24; }
 static uint32_t get16(const uint8_t *p) { return p[0] | p[1] << 8; }
 static uint32_t get32(const uint8_t *p) { return p[0] | p[1] << 8 | p[2] << 16 | (uint32_t)p[3] << 24; }
 
-static uint8_t in[512];
+#define IN_MAX ((1u << 20) + 66000u)
+static uint8_t in[IN_MAX + 64];
 static uint32_t in_len;
 static int off_fmt_size, off_cb_size, off_fact_size, off_data_size, off_fact_id, off_data_id;
 
@@ -58,6 +61,12 @@ static uint32_t write_reference(void)
 	case 3: fmt_size = 40; tag = 0xfffe; bits = sim_choose(2) ? 16 : 32; cb = 22; sim_probe(P_EXTENSIBLE); break;
 	case 4: fmt_size = 18; tag = 1; bits = 16; break;
 	default: cb = 2 * (1 + sim_choose(8)); if (cb == 22) cb = 24;
+		if (sim_chance(1, 40)) {
+			/* the extension may be anything a 16-bit cb_size can describe */
+			static const uint16_t bigcb[] = { 255, 1000, 4097, 30000, 65516, 65517, 0xfffe, 0xffff };
+			cb = bigcb[sim_choose(8)];
+			sim_probe(P_BIG_FMT);
+		}
 		fmt_size = 18 + cb; tag = 1; bits = 16; sim_probe(P_PADDED_FMT); break;
 	}
 	uint32_t align = ch * bits / 8;
@@ -83,7 +92,7 @@ static uint32_t write_reference(void)
 				*p++ = 0x10 + i;
 		} else {
 			for (uint32_t i = 0; i < cb; i++)
-				*p++ = 0xe0 + i;
+				*p++ = (uint8_t)(0xe0 + i);
 		}
 	}
 	off_fact_size = off_fact_id = -1;
@@ -197,8 +206,21 @@ static void run(void)
 		uint32_t want_mut = sim_choose(3) ? sim_choose(4) : 0;
 		for (uint32_t m = 0; m < want_mut; m++) {
 			sim_seg();
-			uint32_t kind = sim_choose(4);
-			if (kind == 3) {
+			uint32_t kind = sim_choose(5);
+			if (kind == 4) {
+				/* a chunk this decoder does not know where it expects fact or data, with any size,
+				 * inside a RIFF chunk that claims to be large enough for it */
+				static const char ids[][5] = { "LIST", "JUNK", "bext", "cue ", "PEAK", "fact", "data", "fmt ", "RIFF", "id3 " };
+				static const uint32_t sizes[] = { 0, 4, 12, 26, 0x7fffffffu, 0x80000000u, 0xffffffccu, 0xffffffd0u,
+					0xffffffe4u, 0xfffffff0u, 0xfffffff8u, 0xfffffffeu, 0xffffffffu, 0x10000u };
+				int o = off_fact_id >= 0 && sim_choose(3) == 0 ? off_fact_id : off_data_id;
+				memcpy(in + o, ids[sim_choose(10)], 4);
+				put32(in + o + 4, sizes[sim_choose(14)]);
+				if (sim_choose(2))
+					put32(in + 4, sim_choose(2) ? 0xffffffffu : get32(in + o + 4));
+				sim_probe(P_FOREIGN_CHUNK);
+				sim_fault(F_MAGIC);
+			} else if (kind == 3) {
 				/* every numeric field of the fmt chunk and the data size take extreme values
 				 * (sizes that decide the structure are left to the hostile-size mutation) */
 				static const uint32_t ext[] = { 0, 1, 2, 0x7fff, 0x8000, 0xffff, 0x10000, 1000, 65535,
@@ -264,6 +286,16 @@ static void run(void)
 			for (uint32_t i = 0; i < g; i++)
 				in[in_len++] = sim_choose(256);
 			sim_fault(F_TAIL_GARBAGE);
+		} else if (sim_chance(1, 50)) {
+			/* the header at the front of a long stream: declared lengths beyond the longest header */
+			static const uint32_t totals[] = { 65592, 65593, 65594, 65595, 65600, 70000, 131072, 1u << 20 };
+			uint32_t total = totals[sim_choose(8)] + (sim_choose(2) ? 0 : sim_choose(64));
+			uint8_t fill = sim_choose(2) ? 0 : (uint8_t)sim_choose(256);
+			if (total > in_len) {
+				memset(in + in_len, fill, total - in_len);
+				in_len = total;
+				sim_fault(F_TAIL_GARBAGE);
+			}
 		}
 		full_len = in_len;
 		if (sim_chance(1, 3)) {
@@ -276,6 +308,8 @@ static void run(void)
 	}
 	if (in_len == 0)
 		sim_probe(P_LEN_ZERO);
+	if (in_len > 65593)
+		sim_probe(P_LEN_OVER_65593);
 
 	uint64_t L = walk(in, full_len);	/* structural length if consistent, else 0 */
 	sim_seg();
@@ -287,9 +321,10 @@ static void run(void)
 	sim_ev("input", in_len, (int64_t)ih, nmut);
 	if (sim_tracing()) {
 		char hex[3 * 512 + 1];
-		for (uint32_t i = 0; i < in_len; i++)
+		uint32_t shown = in_len < 200 ? in_len : 200;
+		for (uint32_t i = 0; i < shown; i++)
 			snprintf(hex + 3 * i, 4, "%02x ", in[i]);
-		hex[in_len ? 3 * in_len - 1 : 0] = 0;
+		hex[shown ? 3 * shown - 1 : 0] = 0;
 		sim_note("input bytes: %.480s%s", hex, in_len > 160 ? "..." : "");
 	}
 	int r = decode_exact(in, in_len, wh);
@@ -332,7 +367,16 @@ static void run(void)
 			sim_fail(NULL, "BAD_LENGTH:not_exact",
 				 "decode reported length %d, but given exactly those %d bytes it returns %d", r, r, r2);
 		/* truncation at any point never yields success */
+		uint32_t extra = 0;
 		for (uint32_t k = 0; k < (uint32_t)r; k++) {
+			if ((uint32_t)r > 4096 && k >= 128 && k + 128 < (uint32_t)r) {
+				/* a very long header: both ends and 64 tape-chosen points in between */
+				if (extra++ >= 64) {
+					k = (uint32_t)r - 129;
+					continue;
+				}
+				k += sim_choose(((uint32_t)r - 128 - k) / (65 - extra) + 1);
+			}
 			int rk = decode_exact(in, k, w2);
 			sim_probe(P_PREFIXES);
 			if (rk >= 0 && (uint32_t)rk <= k)
@@ -356,7 +400,7 @@ static void run(void)
 			}
 			if (ri < 0 && nmut)
 				break;	/* a corrupted header may be rejected at a prefix: allowed */
-			if (ri < 0 || steps > 600 || have == in_len)
+			if (ri < 0 || steps > 70000 || have == in_len)
 				sim_fail(NULL, "BAD_LENGTH:incremental",
 					 "incremental reader did not converge (have %u, result %d, one-shot %d)", have, ri, r);
 			/* read on: either everything asked for or a tape-chosen part of it */
@@ -376,7 +420,7 @@ const sim_harness_t sim_harness = {
 	.min_ops = 1,
 	.rule = "one case = one header from a reference writer (PCM16/32, float+fact, extensible, padded fmt "
 		"variants) after a tape-chosen fault sequence (hostile size fields, bit flips, magic "
-		"corruption, tail garbage, truncation), or 0-128 bytes of noise, decoded from exact-size "
+		"corruption, foreign chunk ids, tail garbage up to 1 MiB, truncation; fmt extensions up to 65535 bytes), or 0-128 bytes of noise, decoded from exact-size "
 		"heap blocks; for accepted inputs every proper prefix and an incremental reader are tried "
 		"as well; non-trivial = at least one stream fault applied or an input accepted; distinct = "
 		"distinct hash of (input bytes, length, result, structural length)",
